@@ -335,6 +335,57 @@ theorem C09_enum_names_unique (vals : EnumDesc) (nv : Bool) (h : namesNodup vals
     EnumNamesUnique (.enum vals nv) :=
   enumNamesUnique_of_nodup vals nv h
 
+/-! ### streams: one Decoder / Encoder for a sequence of bodies -/
+
+/-- The stream decoder (one `jsonDecoder` for the whole stream, each body into a fresh message) yields exactly the
+    single-shot results, body by body: nothing is carried over from one body to the next. -/
+theorem C09_stream_is_map (ops : FloatOps) (o : Opts) (c : Card) (k : Kind) (js : List J) :
+    decodeStream ops o c k js = js.map (decode ops o c k) :=
+  decodeStreamFrom_fresh ops o c k js []
+
+/-- The i-th result of a stream depends only on the i-th body (not on the bodies before or after it). -/
+theorem C09_stream_stateless (ops : FloatOps) (o : Opts) (c : Card) (k : Kind) (js : List J) (i : Nat) :
+    (decodeStream ops o c k js)[i]? = (js[i]?).map (decode ops o c k) := by
+  rw [C09_stream_is_map]; simp
+
+/-- …so two streams that agree at position i give the same i-th result, whatever precedes it. -/
+theorem C09_stream_prefix_irrelevant (ops : FloatOps) (o : Opts) (c : Card) (k : Kind) (pre pre' : List J) (j : J)
+    (rest rest' : List J) :
+    (decodeStream ops o c k (pre ++ j :: rest))[pre.length]? = (decodeStream ops o c k (pre' ++ j :: rest'))[pre'.length]? := by
+  simp [C09_stream_stateless]
+
+/-- Hence every per-body theorem (`C09_agrees`, `C09_rejects`, `C09_no_panic`, …) holds for every element of a stream. -/
+theorem C09_stream_no_panic (ops : FloatOps) (o : Opts) (c : Card) (k : Kind) (js : List J) :
+    ∀ r, r ∈ decodeStream ops o c k js → r ≠ .panic := by
+  intro r hr
+  rw [C09_stream_is_map] at hr
+  obtain ⟨j, _, e⟩ := List.mem_map.mp hr
+  rw [← e]; exact decode_ne_panic ops o c k j
+
+/-- What statelessness rests on: the map the object is decoded into is a local of `unmarshalMap`. A decoder that
+    keeps it between calls (`fresh = false`; encoding/json decodes an object INTO an existing map) stores the
+    entries of earlier bodies again: `{"a":"x"}` then `{"b":"y"}` then `{}`. -/
+theorem C09_stream_reused_map_leaks (ops : FloatOps) (o : Opts) :
+    decodeStreamFrom ops o (.map .string) .string false []
+        [.obj [([97], .str [120])], .obj [([98], .str [121])], .obj []] =
+      [.ok (.map [(.str [97], .str [120])]),
+       .ok (.map [(.str [97], .str [120]), (.str [98], .str [121])]),
+       .ok (.map [(.str [97], .str [120]), (.str [98], .str [121])])] ∧
+    decodeStream ops o (.map .string) .string
+        [.obj [([97], .str [120])], .obj [([98], .str [121])], .obj []] =
+      [.ok (.map [(.str [97], .str [120])]), .ok (.map [(.str [98], .str [121])]), .ok (.map [])] := by
+  constructor <;> rfl
+
+/-- The stream encoder returns for every value exactly what `Marshal` returns, and the writer receives the
+    successful encodings in order — no state between values. -/
+theorem C09_encode_stream_stateless (ops : FloatOps) (o : Opts) (k : Kind) (fs : List Field) :
+    (encodeStream ops o k fs).2 = fs.map (encode ops o k) ∧
+    (encodeStream ops o k fs).1 = okTrees (fs.map (encode ops o k)) := by
+  constructor
+  · exact encodeStreamFrom_results ops o k fs []
+  · have := encodeStreamFrom_written ops o k fs []
+    simpa [encodeStream] using this
+
 /-! ### non-vacuity: a float environment satisfying the laws; canonical values are accepted -/
 
 /-- toy float environment: finite values are written as their bit pattern in decimal and read back -/
